@@ -150,7 +150,7 @@ def rule_t1(ctx):
                 continue
             res.bad(Finding("T1", f["id"], site + " dropped",
                             "the error of %s reaches neither `?`, an error vector, the return value nor the memo: an ill-typed sub-term is accepted" % cal, t["sp"]))
-    if n < 100:
+    if (n < 100) and not res.findings:
         raise AnchorMissing("T1: only %d error-producing calls found in check.rs (counted > 150 on the pinned tree)" % n)
     res.idioms = sorted(set(res.idioms))
     res.note("error-producing calls analysed: %d" % n)
